@@ -46,6 +46,15 @@ G. Two template classes in one rendering: every channel of A with a call of ANOT
    data through an expression, a with-object, a loop and fmt=.  Expected = the caller's source with the call replaced by the
    sub-template's text (a fresh object of the caller's class alone); the guards of the class that was CALLED by the
    application stay in force for the whole rendering (markers, "every read asked").
+H. Every client object x every way it becomes a namespace: two client objects in ONE rendering that are two plain objects /
+   two distinct objects that compare and hash equal (value objects) / equal but unhashable / ONE object reached through two
+   containers (acquisition wrappers: equal, not identical; the guard decides by container) / the same object twice; each is made
+   a namespace in every way the language has (dtml-with by name / expression / only, a one-element tuple of it as client
+   attribute, method result, built / sliced / concatenated in the expression, through _.namespace, through dtml-let, a loop row,
+   a row re-wrapped by dtml-with, the client of a template called in an expression, nested with / in / tree rows holding both) and
+   one name is read in each by every reading tag (var, expression, if, unless, let, _[...], _.getitem).  The guard refuses per
+   (object [in its container], name).  Expected, from the property's text alone: every read shows the value of the object it
+   names or is refused exactly as the guard says about THAT object; the guard was asked about every (object, name) read.
 C. Correspondence: random programs with a recording guard, random refused (object, attribute) pairs and refused items,
    skip_unauthorized: results, call traces AND the ordered guard log (attribute guard / item guard events) of the real
    classes vs the Lean interpreter model.  A second slice renders the same kind of programs with the sub-templates being
@@ -225,6 +234,11 @@ def channels(T='<dtml-try>%s<dtml-except>DENIED</dtml-try>'):
                   lambda log, m, n: (None, {'o': objs(log, m)}, {(1, 'secret')}, set()), None)
     ch['with-only'] = ('<dtml-with o only>[' + T % '<dtml-var secret>' + '|<dtml-var pub>]</dtml-with>',
                        lambda log, m, n: (None, {'o': objs(log, m)}, {(1, 'secret')}, set()), None)
+    # a one-element tuple as with-object (a relation with one member, the result of _.namespace): dtml-with takes the element
+    ch['with-1tuple'] = ('<dtml-with t>[' + T % '<dtml-var secret>' + '|<dtml-var pub>]</dtml-with>',
+                         lambda log, m, n: (None, {'t': (objs(log, m),)}, {(1, 'secret')}, set()), None)
+    ch['with-1tuple-expr-only'] = ('<dtml-with "(o,)" only>[' + T % '<dtml-if secret>Y<dtml-else>N</dtml-if>' + '|<dtml-var pub>]</dtml-with>',
+                                   lambda log, m, n: (None, {'o': objs(log, m)}, {(1, 'secret')}, set()), None)
     ch['with-nested'] = ('<dtml-with o><dtml-let z=pub><dtml-in l>[' + T % '<dtml-var secret>' + '|<dtml-var z>]</dtml-in></dtml-let></dtml-with>',
                          lambda log, m, n: (None, {'o': objs(log, m), 'l': [Spy(5, log, x=1)]}, {(1, 'secret')}, set()), None)
     ch['expr-attr'] = ('[' + T % '<dtml-var "o.secret">' + '|<dtml-var "o.pub">]',
@@ -1105,6 +1119,291 @@ def part_g(res, r, tier):
               {'part': 'G', 'position': pos, 'how': how, 'other_class': kind, 'other_body': body})
 
 
+# --------------------------------------------------------------------------- H: every client object x every way it becomes a namespace
+
+class EqSpy(Spy):
+    """a value object: equal (and hash-equal) to every other record with the same number — still another object, with data
+    and permissions of its own"""
+
+    def __eq__(self, other):
+        return isinstance(other, EqSpy) and object.__getattribute__(other, '_eqkey') == object.__getattribute__(self, '_eqkey')
+
+    def __ne__(self, other):
+        return not self.__eq__(other)
+
+    def __hash__(self):
+        return hash(object.__getattribute__(self, '_eqkey'))
+
+
+class EqUnhashableSpy(EqSpy):
+    __hash__ = None
+
+
+def aq_spy_class():
+    from Acquisition import Implicit
+
+    class AqSpy(Spy, Implicit):
+        """one object reachable in several containers: the acquisition wrappers are different objects that compare equal"""
+    return AqSpy
+
+
+def h_key(inst):
+    """who the guard is asked about: the object (its number) — in the container it was reached through, if any"""
+    from Acquisition import aq_base, aq_parent
+    b = aq_base(inst)
+    if not isinstance(b, Spy):
+        return None
+    oid = object.__getattribute__(b, '_oid')
+    parent = aq_parent(inst)
+    if parent is None:
+        return oid
+    return (object.__getattribute__(aq_base(parent), '_oid'), oid)
+
+
+def h_guarded_class(log, refused):
+    from DocumentTemplate import HTML
+    from zExceptions import Unauthorized
+    marker = object()
+
+    class Guarded(HTML):
+        def guarded_getattr(self, inst, name, default=marker):
+            k = h_key(inst)
+            if k is not None:
+                log.append(('guard', k, name))
+                if (k, name) in refused:
+                    raise Unauthorized(name)
+            if default is marker:
+                return getattr(inst, name)
+            return getattr(inst, name, default)
+
+        def guarded_getitem(self, ob, index):
+            return ob[index]
+    return Guarded
+
+
+H_WORLDS = ('identity', 'equal', 'equal-unhashable', 'acquisition', 'acquisition-nested', 'same-object')
+H_NAMES = ('val', 'pub')
+
+
+def h_world(kind, log, refused_refs, m):
+    """-> ({'o1': object, 'o2': object}, {(ref, name): text of the value}).  The two objects of a world have the same attribute
+    names; what the guard refuses holds the marker (where the two are one piece of data — acquisition, the same object — the
+    data is public in one place and refused in the other: no marker, the reference decides alone)"""
+    def text(ref, name):
+        t = '%s-of-%s' % (name, ref)
+        return (m + '-' + t) if (ref, name) in refused_refs and m else t
+    if kind in ('identity', 'equal', 'equal-unhashable'):
+        cls = {'identity': Spy, 'equal': EqSpy, 'equal-unhashable': EqUnhashableSpy}[kind]
+        objs = {}
+        for i, ref in enumerate(('o1', 'o2')):
+            objs[ref] = cls(31 + i, log, **{name: text(ref, name) for name in H_NAMES})
+            object.__setattr__(objs[ref], '_eqkey', 7)
+        return objs, {(ref, name): text(ref, name) for ref in objs for name in H_NAMES}
+    if kind == 'same-object':
+        o = Spy(31, log, **{name: '%s-of-o' % name for name in H_NAMES})
+        return {'o1': o, 'o2': o}, {(ref, name): '%s-of-o' % name for ref in ('o1', 'o2') for name in H_NAMES}
+    AqSpy = aq_spy_class()
+    doc = AqSpy(33, log, **{name: '%s-of-doc' % name for name in H_NAMES})
+    f1, f2 = AqSpy(41, log), AqSpy(42, log)
+    if kind == 'acquisition-nested':
+        site = AqSpy(40, log)
+        f1, f2 = f1.__of__(site), f2.__of__(site)
+    return ({'o1': doc.__of__(f1), 'o2': doc.__of__(f2)},
+            {(ref, name): '%s-of-doc' % name for ref in ('o1', 'o2') for name in H_NAMES})
+
+
+# how the author reads NAME once the object is (part of) the namespace: source, what it shows of the value's text
+H_READS = {
+    'var': ('<dtml-var NAME>', lambda t: t),
+    'expr': ('<dtml-var "NAME">', lambda t: t),
+    'expr-op': ('<dtml-var "NAME + \'!\'">', lambda t: t + '!'),
+    'if': ('<dtml-if NAME>Y<dtml-else>N</dtml-if>', lambda t: 'Y'),
+    'unless': ('<dtml-unless NAME>U</dtml-unless>.', lambda t: '.'),
+    'let': ('<dtml-let c05s=NAME><dtml-var c05s></dtml-let>', lambda t: t),
+    'let-expr': ('<dtml-let c05s="NAME"><dtml-var c05s upper></dtml-let>', lambda t: t.upper()),
+    'subscript': ('<dtml-var "_[\'NAME\']">', lambda t: t),
+    'getitem-function': ('<dtml-var "_.getitem(\'NAME\', 0)">', lambda t: t),
+}
+# how the object REF becomes a namespace: every kind of with-object the language knows (the object itself by name / by
+# expression, a one-element tuple of it — client attribute, method result, built or sliced in the expression: dtml-with takes the
+# element —, below only, through _.namespace), a loop row, the client of a template called in an expression
+H_FORMS = {
+    'with': '<dtml-with REF>READ</dtml-with>',
+    'with-only': '<dtml-with REF only>READ</dtml-with>',
+    'with-expr': '<dtml-with "REF">READ</dtml-with>',
+    'with-expr-only': '<dtml-with "REF" only>READ</dtml-with>',
+    'with-1tuple-name': '<dtml-with t_REF>READ</dtml-with>',
+    'with-1tuple-name-only': '<dtml-with t_REF only>READ</dtml-with>',
+    'with-1tuple-method': '<dtml-with m_REF>READ</dtml-with>',
+    'with-1tuple-method-call': '<dtml-with "m_REF()">READ</dtml-with>',
+    'with-1tuple-attr': '<dtml-with "h_REF.rel">READ</dtml-with>',
+    'with-1tuple-attr-name': '<dtml-with h_REF><dtml-with rel>READ</dtml-with></dtml-with>',
+    'with-1tuple-built': '<dtml-with "(REF,)">READ</dtml-with>',
+    'with-1tuple-built-only': '<dtml-with "(REF,)" only>READ</dtml-with>',
+    'with-1tuple-slice': '<dtml-with "p_REF[:1]">READ</dtml-with>',
+    'with-1tuple-concat': '<dtml-with "() + t_REF">READ</dtml-with>',
+    'with-namespace-with': '<dtml-with "_.namespace(c05p=REF)"><dtml-with c05p>READ</dtml-with></dtml-with>',
+    'with-namespace-1tuple': '<dtml-with "_.namespace(c05p=t_REF)"><dtml-with c05p>READ</dtml-with></dtml-with>',
+    'with-in-let': '<dtml-let c05w=REF><dtml-with c05w>READ</dtml-with></dtml-let>',
+    'with-in-let-1tuple': '<dtml-let c05w="(REF,)"><dtml-with c05w>READ</dtml-with></dtml-let>',
+    'in-row': '<dtml-in l_REF>READ</dtml-in>',
+    'in-row-expr': '<dtml-in "[REF]">READ</dtml-in>',
+    'in-row-1tuple': '<dtml-in t_REF>READ</dtml-in>',
+    'in-row-with-item': '<dtml-in l_REF><dtml-with sequence-item only>READ</dtml-with></dtml-in>',
+    'in-row-1tuple-of-item': '<dtml-in l_REF><dtml-with "(_[\'sequence-item\'],)">READ</dtml-with></dtml-in>',
+    'sub-client': '<dtml-var "SUB(REF, _)">',
+    'sub-client-1tuple': '<dtml-var "SUB(t_REF, _)">',
+    'expr-attr': None,            # '<dtml-var "REF.NAME">': no namespace at all (control)
+    'namespace-attr': None,       # '<dtml-with "_.namespace(c05p=REF)"><dtml-var "c05p.NAME"></dtml-with>'
+}
+H_TRY = '<dtml-try>%s<dtml-except>DENIED</dtml-try>'
+
+
+def h_piece(ref, form, read, name):
+    """-> (source, the text it gives for the value's text t)"""
+    if form == 'expr-attr':
+        return '<dtml-var "%s.%s">' % (ref, name), (lambda t: t)
+    if form == 'namespace-attr':
+        return '<dtml-with "_.namespace(c05p=%s)"><dtml-var "c05p.%s"></dtml-with>' % (ref, name), (lambda t: t)
+    rsrc, shows = H_READS[read]
+    src = H_FORMS[form].replace('READ', rsrc.replace('NAME', name)).replace('SUB', 'sub_%s_%s' % (read.replace('-', '_'), name))
+    return src.replace('REF', ref), shows
+
+
+# both objects in ONE construct: (source with READ1 / READ2 = the reads that see o1 / o2, in the order they are rendered)
+H_JOINT = {
+    'in-both': ('<dtml-in both>[READ]</dtml-in>', ('o1', 'o2')),
+    'in-both-reverse': ('<dtml-in both reverse>[READ]</dtml-in>', ('o2', 'o1')),
+    'in-both-expr': ('<dtml-in "[o1, o2]">[READ]</dtml-in>', ('o1', 'o2')),
+    'in-both-twice': ('<dtml-in both>[READ]</dtml-in><dtml-in both>[READ]</dtml-in>', ('o1', 'o2', 'o1', 'o2')),
+    'in-in': ('<dtml-in l_o1><dtml-in l_o2>[READ]</dtml-in>[READ]</dtml-in>', ('o2', 'o1')),
+    'with-with': ('<dtml-with o1><dtml-with o2>[READ]</dtml-with>[READ]</dtml-with>', ('o2', 'o1')),
+    'with-with-1tuple': ('<dtml-with t_o1><dtml-with t_o2>[READ]</dtml-with>[READ]</dtml-with>', ('o2', 'o1')),
+    'with-with-only': ('<dtml-with o2><dtml-with o1 only>[READ]</dtml-with>[READ]</dtml-with>', ('o1', 'o2')),
+    'tree-rows': ('<dtml-tree c05root branches=kids>[READ]</dtml-tree>', ('o1', 'o2')),
+}
+
+
+def h_render(kind, src, refused_refs, m):
+    """-> (output, log, values, keys of the two objects)"""
+    log = []
+    objs, values = h_world(kind, log, refused_refs, m)
+    keys = {ref: h_key(o) for ref, o in objs.items()}
+    refused = {(keys[ref], name) for ref, name in refused_refs}
+    cls = h_guarded_class(log, refused)
+    ns = tree_ns(both=[objs['o1'], objs['o2']], c05root=Pub(kids=lambda: [objs['o1'], objs['o2']], tpId=lambda: 'c05root'))
+    for ref, o in objs.items():
+        ns.update({ref: o, 't_' + ref: (o,), 'm_' + ref: (lambda o=o: (o,)), 'p_' + ref: (o, 'filler', 'filler'), 'l_' + ref: [o],
+                   'h_' + ref: Pub(rel=(o,), one=o)})
+    for read, (rsrc, _s) in H_READS.items():
+        for name in H_NAMES:
+            ns['sub_%s_%s' % (read.replace('-', '_'), name)] = cls(rsrc.replace('NAME', name))
+    try:
+        out = cls(src)(None, ns)
+    except Exception as e:  # noqa
+        out = 'RAISED %s' % type(e).__name__
+        if type(e).__name__ != 'Unauthorized':
+            out += ': %s' % (str(e)[:200],)
+    return out, log, values, keys
+
+
+def h_plans(r, tier):
+    """(world, [(ref, form, read, name, caught)], joint form or None, refused refs).  Every world x every ordered pair of forms
+    (the first for o1, the second for o2, reading the same name) followed by a re-read of one of them; the refusals rotate over
+    {the later object only, the earlier only, both, another name of the later one, nothing}; every joint form x every read.
+    thorough: every refusal set for every pair, several reads"""
+    forms, reads = list(H_FORMS), list(H_READS)
+    refusals = [{('o2', 'val')}, {('o1', 'val')}, {('o1', 'val'), ('o2', 'val')}, {('o2', 'pub')}, {('o1', 'pub'), ('o2', 'val')}, set()]
+    rot = r.randrange(1000)
+    for kind in H_WORLDS:
+        for f1 in forms:
+            for f2 in forms:
+                rot += 1
+                if tier != 'thorough' and kind in ('same-object', 'identity', 'equal-unhashable', 'acquisition-nested') and (rot % 4):
+                    continue                                        # the control worlds: a quarter of the pairs
+                sets = refusals if tier == 'thorough' else [refusals[0], refusals[rot % len(refusals)]]
+                for k, refused in enumerate(sets):
+                    name = 'val'
+                    pieces = [('o1', f1, reads[(rot + k) % len(reads)], name, True), ('o2', f2, reads[(rot * 7 + k) % len(reads)], name, True),
+                              (r.choice(['o1', 'o2']), r.choice(forms), r.choice(reads), r.choice(H_NAMES), r.random() < 0.8)]
+                    if r.random() < 0.3:
+                        pieces.insert(1, ('o1', r.choice(forms), r.choice(reads), 'pub', True))
+                    yield kind, pieces, None, refused
+        for joint in H_JOINT:
+            for read in reads:
+                for refused in refusals:
+                    yield kind, [], (joint, read, r.choice(H_NAMES) if refused == set() else 'val'), refused
+
+
+def part_h(res, r, tier):
+    for kind, pieces, joint, refused_refs in h_plans(r, tier):
+        # the reference: every read shows the text of the value of THAT object, or is refused — by what the guard says about
+        # (that object [in that container], name)
+        def keyset(keys):
+            return {(keys[ref], name) for ref, name in refused_refs}
+        src, expect = '', []            # expect: (ref, name, shows, caught)
+        if joint:
+            form, read, name = joint
+            rsrc, shows = H_READS[read]
+            tmpl, order = H_JOINT[form]
+            src = tmpl.replace('READ', H_TRY % rsrc.replace('NAME', name))
+            expect = [(ref, name, shows, True, '[%s]') for ref in order]
+        else:
+            for ref, form, read, name, caught in pieces:
+                psrc, shows = h_piece(ref, form, read, name)
+                src += '(' + ((H_TRY % psrc) if caught else psrc) + ')'
+                expect.append((ref, name, shows, caught, '(%s)'))
+        problems, outs = [], []
+        sameness = kind in ('same-object', 'acquisition', 'acquisition-nested')
+        for m in (((MARK_A, MARK_B) if tier == 'thorough' else (MARK_A,)) if not sameness and refused_refs else ('',)):
+            out, log, values, keys = h_render(kind, src, refused_refs, m)
+            res.evaluations += 1
+            refused = keyset(keys)
+            want, raised = '', False
+            for ref, name, shows, caught, deco in expect:
+                if (keys[ref], name) in refused:
+                    if not caught:
+                        raised = True
+                        break
+                    want += deco % 'DENIED'             # the handler's text stands in place of the whole read
+                else:
+                    want += deco % shows(values[(ref, name)])
+            if raised:
+                want = 'RAISED Unauthorized'
+            got = out
+            if joint and joint[0].startswith('tree') and not out.startswith('RAISED'):
+                got = ''.join(re.findall(r'\[.*?\]', out))         # the rows, without the table around them
+            if got != want:
+                problems.append('rendered %r; every read shows the value of the object it names or is refused, as the guard says '
+                                'about (that object, name): %r' % (got, want))
+            if m and 'MARKER' in out:
+                problems.append('refused data reached the output: %r' % (out,))
+            outs.append(re.sub('MARKER-(AAA|BBB)', 'MARKER', out))
+            asked = {(ev[1], ev[2]) for ev in log if ev[0] == 'guard'}
+            asked_oids = {(k[1] if isinstance(k, tuple) else k, n_) for k, n_ in asked}
+            for ev in log:
+                if ev[0] == 'read' and (ev[1], ev[2]) not in asked_oids:
+                    problems.append('attribute %r of object %d was read without the guard ever being asked' % (ev[2], ev[1]))
+            if not raised:
+                for ref, name, shows, caught, deco in expect:
+                    if (keys[ref], name) not in asked:
+                        problems.append('the guard was never asked about (%s = object %r, %r), which the template reads' % (ref, keys[ref], name))
+        if len(set(outs)) > 1 and not problems:
+            problems.append('the output depends on data the guard refuses: %r vs %r' % (outs[0], outs[1]))
+        res.count('namespace_objects=%s' % kind)
+        if refused_refs:
+            res.nt(('namespace-object', kind, src, tuple(sorted(refused_refs))))
+        if problems:
+            res.oracle_fail.append({'case': {'part': 'H', 'objects': kind, 'source': src, 'refused': sorted(map(list, refused_refs))},
+                                    'what': '%s with o1, o2 = %s; the guard refuses %s: %s' % (
+                                        src, {'identity': 'two objects', 'equal': 'two distinct objects that compare (and hash) equal',
+                                              'equal-unhashable': 'two distinct unhashable objects that compare equal',
+                                              'acquisition': 'one object in two containers (acquisition wrappers)',
+                                              'acquisition-nested': 'one object in two containers of one site (acquisition wrappers)',
+                                              'same-object': 'the same object twice'}[kind],
+                                        sorted(refused_refs) or 'nothing', '; '.join(sorted(set(problems))[:4]))})
+
+
 def part_b(res):
     from DocumentTemplate import HTML
     log = []
@@ -1311,6 +1610,12 @@ def run(res, tier, have_driver):
                 'with-object, a skipping loop and fmt=: output == the source with the other template\'s text in place of the call on a '
                 'fresh object of the caller\'s class, no marker, every read asked (the first tag of %d base channels gets every way x '
                 'every class and every class x every body; thorough: the whole product); '
+                'H: two client objects in one rendering (%d kinds: plain, equal + hash-equal value objects, equal unhashable, one object '
+                'in two acquisition contexts, the same object twice) x every ordered pair of %d ways an object becomes a namespace (with / '
+                'with only / expression, one-element tuples from a name, a method, an attribute, built, sliced, _.namespace, let, loop rows, '
+                'client of a called template, ...) x %d reading tags x rotating refusal sets per (object [in its container], name), plus %d '
+                'constructs holding both objects (loops, nested with, tree rows): output == per read the value of the object named or '
+                'DENIED as the guard says about that very object, the guard asked about every (object, name) read; '
                 'B: underscore names through 4 lookup forms x {plain, guarded} class and 5 restricted expressions; '
                 'C: random programs (all block tags, nesting <= 3) with the guard installed, random refused (object, attribute) pairs, '
                 'refused items and skip_unauthorized: results + call traces + ordered guard log vs the model; non-trivial = '
@@ -1319,7 +1624,8 @@ def run(res, tier, have_driver):
                 'template other than the called one standing for a class without guards / with an allow-everything guard of its own, '
                 'against the model\'s single guard per rendering'
                 % (len(channels()), 2 * N_COLLECTIONS[tier if tier in N_COLLECTIONS else 'quick'], len(VALUE_KINDS), len(SPECIAL_FORMATS),
-                   len(VAR_OPTIONS), len(SUB_HOWS), len(SUB_BODIES), len(BASE_CHANNELS)))
+                   len(VAR_OPTIONS), len(SUB_HOWS), len(SUB_BODIES), len(BASE_CHANNELS), len(H_WORLDS), len(H_FORMS), len(H_READS),
+                   len(H_JOINT)))
     part_a(res)
     part_b(res)
     part_d(res, common.rng('C05/D'), tier)
@@ -1327,6 +1633,7 @@ def run(res, tier, have_driver):
     part_f(res, common.rng('C05/F'), tier)
     part_f_options(res)
     part_g(res, common.rng('C05/G'), tier)
+    part_h(res, common.rng('C05/H'), tier)
     part_c(res, r, 500 if tier == 'quick' else 8000, have_driver)
     part_c(res, common.rng('C05/C-mixed'), 200 if tier == 'quick' else 3000, have_driver, mixed=True)
     res.partial.append('dtml-tree reads ids / urls (tpId, tpURL) and its sort= key with plain getattr, and expand_all walks the branches without '
@@ -1354,6 +1661,7 @@ def search_more(res, tier):
     part_f(res2, common.rng('C05/F'), tier)
     part_f_options(res2)
     part_g(res2, common.rng('C05/G'), tier)
+    part_h(res2, common.rng('C05/H'), tier)
     return res2.oracle_fail
 
 
